@@ -104,6 +104,25 @@ def state_cover():
     return out
 
 
+POP_STATES = ["Data", "RawData(Rcdata)", "RawData(Rawtext)", "RawData(ScriptData)", "RawData(ScriptDataEscaped(Escaped))",
+              "RawData(ScriptDataEscaped(DoubleEscaped))", "Plaintext", "AttributeValue(DoubleQuoted)",
+              "AttributeValue(SingleQuoted)", "AttributeValue(Unquoted)"]
+
+
+def crlf_run_cover():
+    """a CR, then a bulk-read run (possibly reaching the end of a chunk), then LF / other characters, in every state
+    that reads with pop_except_from (fast path vs. slow path vs. pending-LF flag)"""
+    out = []
+    runs = ["", "b", "bc", "b" * 15, "b" * 16, "b" * 17, "é", "=\"`", "b-b"]
+    tails = ["\n", "\nc", "\n\nc", "\r\nc", "c", "&amp;\n", "<", "\0\n"]
+    for st in POP_STATES:
+        for lead in ("\r", "a\r", "\r\n\r"):
+            for r in runs:
+                for t in tails:
+                    out.append(case([lead + r + t], state=st, last=hx("s")))
+    return out
+
+
 def pair_cover():
     """every state × every ordered pair over a reduced alphabet (two consecutive transitions)"""
     out = []
